@@ -146,3 +146,72 @@ package stick
 //@   requires depth: len(s.scopes) >= 2
 //@   ensures len: len(s.scopes) == old(len(s.scopes)) - 1
 //@   ensures below: forall i :: 0 <= i && i < len(s.scopes) ==> s.scopes[i] == old(s.scopes[i])
+
+// ---------------------------------------------------------------------------------------
+// Attribute access and iteration (value.go), properties C16 and C06
+//
+// iterable(v): what Iterate, Len and IsIterable must agree on — nil, or a slice, array or map,
+// possibly behind a non-nil pointer (reflect kinds: 17 Array, 21 Map, 23 Slice, 22 Ptr).
+
+// ikind(v): the reflect kind behind v after following one pointer — what Iterate, Len, IsIterable, IsArray
+// and IsMap all switch on; they must agree (C16): iterable means nil, slice (23), array (17) or map (21).
+//@ pred ikind(v Value) = rv_kind(rv_ind(rv_of(v)))
+//@ pred iterk(k int) = k == 17 || k == 21 || k == 23
+
+// The loop metadata of element number i (0-based) of ln: the identities of C06/C16.
+//@ pred loopOK(l Loop, i int, ln int) = l.Index == i + 1 && l.Index0 == i && l.Revindex == ln - i && l.Revindex0 == ln - i - 1 && l.Length == ln && l.First == (i == 0) && l.Last == (i == ln - 1)
+
+// Iteratee callbacks: the metadata passed to them is checked at the call sites in Iterate.
+//@ func functype:stick.Iteratee
+//@   requires meta: a2.Index == a2.Index0 + 1 && a2.Index0 == a2.Length - a2.Revindex && a2.Revindex == a2.Revindex0 + 1 && a2.First == (a2.Index0 == 0) && a2.Last == (a2.Revindex0 == 0) && 0 <= a2.Index0 && a2.Index0 < a2.Length
+
+//@ func stick.Iterate
+//@   requires cb: it != nil
+//@   ensures nilval: val == nil ==> r0 == 0 && err == nil
+//@   ensures notiter: val != nil && !iterk(ikind(val)) ==> err != nil && r0 == 0
+//@   ensures count: val != nil && iterk(ikind(val)) ==> 0 <= r0 && r0 <= rv_len(rv_ind(rv_of(val)))
+//@   loop 1 invariant 0 <= i && i <= ln && ln == rv_len(r) && loopOK(l, i, ln) && (rv_kind(r) == 23 || rv_kind(r) == 17) && rv_caniface(r)
+//@   loop 1 decreases ln - i
+//@   loop 2 invariant rangeindex >= -1 && rangeindex < len(keys) && len(keys) == ln && ln == rv_len(r) && rv_kind(r) == 21 && rv_caniface(r) && loopOK(l, rangeindex + 1, ln)
+//@   loop 2 invariant keys: local(keys) && (forall j trig :: 0 <= j && j < len(keys) ==> rv_valid(keys[j]) && rv_caniface(keys[j]) && rt_assignable(rv_type(keys[j]), rt_key(rv_type(r))) && rv_valid(rv_mapindex(r, keys[j])))
+//@   loop 2 decreases len(keys) - rangeindex
+
+//@ func stick.Len
+//@   ensures nilval: val == nil ==> r0 == 0 && err == nil
+//@   ensures agree: val != nil ==> (err == nil) == iterk(ikind(val))
+//@   ensures len: val != nil && err == nil ==> r0 == rv_len(rv_ind(rv_of(val)))
+//@ func stick.IsArray
+//@   ensures spec: result == (ikind(val) == 23 || ikind(val) == 17)
+//@ func stick.IsMap
+//@   ensures spec: result == (ikind(val) == 21)
+//@ func stick.IsIterable
+//@   ensures spec: result == (val == nil || iterk(ikind(val)))
+
+//@ func stick.Equal
+//@   ensures spec: result == (strspec(left) == strspec(right))
+//@ func stick.Contains
+//@ func stick.Contains$1
+//@   implements functype:stick.Iteratee
+
+// GetAttr: the element when it exists, an error otherwise (C16).
+//@ pred cont(v Value) = rv_ind(rv_of(v))
+//@ func stick.GetAttr
+//@   ensures nilcont: !rv_valid(cont(v)) ==> err != nil
+//@   ensures elem: rv_valid(cont(v)) && (rv_kind(cont(v)) == 23 || rv_kind(cont(v)) == 17) && 0 <= trunc(numspec(attr)) && trunc(numspec(attr)) < rv_len(cont(v)) && rv_kind(rv_index(cont(v), trunc(numspec(attr)))) != 19 && rv_caniface(cont(v)) ==>
+//@+     err == nil && r0 == rv_iface(rv_index(cont(v), trunc(numspec(attr))))
+//@   ensures oob: rv_valid(cont(v)) && (rv_kind(cont(v)) == 23 || rv_kind(cont(v)) == 17) && (trunc(numspec(attr)) < 0 || trunc(numspec(attr)) >= rv_len(cont(v))) ==> err != nil
+//@   ensures badkey: rv_valid(cont(v)) && rv_kind(cont(v)) == 21 && (attr == nil || !rt_assignable(rv_type(rv_of(attr)), rt_key(rv_type(cont(v))))) ==> err != nil
+//@   ensures mapelem: rv_valid(cont(v)) && rv_kind(cont(v)) == 21 && attr != nil && rt_assignable(rv_type(rv_of(attr)), rt_key(rv_type(cont(v)))) && rv_valid(rv_mapindex(cont(v), rv_of(attr))) && rv_kind(rv_mapindex(cont(v), rv_of(attr))) != 19 && rv_caniface(cont(v)) ==>
+//@+     err == nil && r0 == rv_iface(rv_mapindex(cont(v), rv_of(attr)))
+//@   ensures mapmiss: rv_valid(cont(v)) && rv_kind(cont(v)) == 21 && attr != nil && rt_assignable(rv_type(rv_of(attr)), rt_key(rv_type(cont(v)))) && !rv_valid(rv_mapindex(cont(v), rv_of(attr))) ==> err != nil
+//@   ensures other: rv_valid(cont(v)) && rv_kind(cont(v)) != 25 && rv_kind(cont(v)) != 21 && rv_kind(cont(v)) != 23 && rv_kind(cont(v)) != 17 ==> err != nil
+//@   loop 1 invariant rangeindex >= -1 && len(rargs) == len(args) && local(rargs)
+//@   loop 1 decreases len(args) - rangeindex
+//@   loop 2 invariant rangeindex >= -1 && len(rargs) == len(args) && len(rargs) == rt_numin(t) && local(rargs) && rv_valid(retval) && rv_kind(retval) == 19 && !rv_isnil(retval) && t == rv_type(retval)
+//@   loop 2 invariant checked: forall j trig :: 0 <= j && j <= rangeindex ==> rv_valid(rargs[j]) && rt_assignable(rv_type(rargs[j]), ite(rt_variadic(t) && j == len(rargs) - 1, rt_elem(rt_in(t, j)), rt_in(t, j)))
+//@   loop 2 decreases len(rargs) - rangeindex
+
+//@ func stick.getMethod
+//@   requires v != nil
+//@ func stick.(*state).walkForNode$1
+//@   implements functype:stick.Iteratee
